@@ -13,8 +13,8 @@ import subprocess
 from lib.coqterm import cbytes, cbool, cN, clist, copt, hx, unhx
 
 ID = "C48"
-QUICK_N = 1300
-THOROUGH_N = 30000
+QUICK_N = 900
+THOROUGH_N = 12000
 SHARD = 200
 RULE = ("55% requests built from per-field token dictionaries (shell metacharacters, quotes, command substitutions, "
         "control characters, percent/backslash, leading dash/at-sign, high and invalid UTF-8 bytes in method, scheme, host, "
